@@ -1,10 +1,12 @@
 import Cuckoo.Model.Proto
+import Cuckoo.Model.ProtoLive
 /-! K3(i): replay of recorded synchronisation traces through the protocol acceptor. -/
 namespace Driver
 open Cuckoo.Proto
 
 structure PSt where
   cur : Option PS := none
+  live : LS := LS.init      -- retry bookkeeping (rule L, Model/ProtoLive.lean)
   n : Nat := 0
   rejected : Option (Nat × String) := none
 
@@ -32,7 +34,7 @@ def protoLine (st : PSt) (ws : List String) : PSt × Option String :=
     | some hp, some (n :: rest) =>
       let s0 := init hp n
       let s := { s0 with gens := n :: rest }
-      ({ cur := some s, n := 0, rejected := none }, none)
+      ({ cur := some s, live := LS.init, n := 0, rejected := none }, none)
     | _, _ => (st, some "bad-op")
   | ["done"] =>
     let r := match st.rejected with
@@ -46,9 +48,12 @@ def protoLine (st : PSt) (ws : List String) : PSt × Option String :=
       match parseEv ws with
       | none => ({ st with rejected := some (st.n, "unparsable: " ++ " ".intercalate ws) }, none)
       | some e =>
-        match accept s e with
-        | some s' => ({ st with cur := some s', n := st.n + 1 }, none)
-        | none => ({ st with rejected := some (st.n, " ".intercalate ws) }, none)
+        match accept s e, stepL s st.live e with
+        | some s', some l' => ({ st with cur := some s', live := l', n := st.n + 1 }, none)
+        | none, _ => ({ st with rejected := some (st.n, " ".intercalate ws) }, none)
+        | some _, none =>
+          ({ st with rejected := some (st.n, "rule L (first lock on a snapshot whose validation already failed, no counter load since): "
+                                             ++ " ".intercalate ws) }, none)
     | none, none => (st, some "bad-op")
 
 end Driver
